@@ -557,7 +557,16 @@ class World2:
         if a is None or a.obj is None or a.cls not in TRACKED:
             return self.skip()  # only C16 (3D, force/torque, EMG) promises that wrong items are refused
         kindname = op["kind"]
-        if kindname.startswith("len"):
+        if kindname == "twin1":
+            # one frame, and otherwise the spit image of a track the block already holds (same
+            # label, same constant value): "equal" under any comparison that broadcasts
+            if a.n < 2 or not a.model:
+                return self.skip()
+            twin = a.model[op["id"] % len(a.model)][1]
+            if twin is None:
+                return self.skip()
+            it = make_item(a.cls, a.n, twin, 1)
+        elif kindname.startswith("len"):
             if a.cls not in TRACKED:
                 return self.skip()
             delta = int(kindname[3:])
@@ -591,7 +600,12 @@ class World2:
         self.stats["fault_bad_item"] += 1
         self.expect_unchanged = True
         self.fault_prop = "C16"  # whatever goes wrong now is the refused add's doing
-        kind, val = self.call(self.adder(a), it, None)
+        ch = None
+        if a.cls in CHANNELLED and op.get("ch") is not None:
+            used = {c for c, _ in a.model}
+            ch = next(c for c in [op["ch"]] + list(range(500)) if c not in used)  # an explicit, free channel
+            self.stats["bad_item_with_explicit_channel"] += 1
+        kind, val = self.call(self.adder(a), it, ch)
         self.note("add_bad", kindname, kind)
         if kind != "exc":
             self.v("C16", "I-obj", "invalid-item-accepted", {"what": kindname})
@@ -713,7 +727,14 @@ class World2:
         faulty = False
         if bad_at is not None and items:
             k = bad_at % len(items)
-            if bad_kind.startswith("len"):
+            if bad_kind == "twin1":
+                if a.cls not in ("data3d", "ft") or a.n < 2 or not a.model:
+                    return self.skip()
+                twin = a.model[bad_at % len(a.model)][1]
+                if twin is None:
+                    return self.skip()
+                items[k] = make_item(a.cls, a.n, twin, 1)
+            elif bad_kind.startswith("len"):
                 if a.cls not in ("data3d", "ft"):
                     return self.skip()
                 L = max(a.n + int(bad_kind[3:]), 0)
